@@ -808,6 +808,9 @@ func describeShallow(v ssa.Value, d func(ssa.Value) string) string {
 			describeDepthGuard = describeDepthGuard[:len(describeDepthGuard)-1]
 			return t
 		}
+		if k := commonConstArg(x); k != nil {
+			return describe(k) // a parameter the reference does not have, given the same constant by every caller
+		}
 		for i, p := range refParams(x.Parent()) {
 			if p == x {
 				return fmt.Sprintf("$%d", i)
@@ -1497,6 +1500,78 @@ func soleCallArg(p *ssa.Parameter) ssa.Value {
 	}
 	return nil
 }
+
+// commonConstArg: p is a parameter that was added to an unexported function the reference tree has (its
+// reference position lies after the reference parameters), the function is only ever called directly, and
+// every call in the module passes the same constant: that constant.
+func commonConstArg(p *ssa.Parameter) *ssa.Const {
+	g := p.Parent()
+	if curProgram == nil || g == nil {
+		return nil
+	}
+	n, ok := curRenames.paramRefN[g]
+	if !ok {
+		return nil
+	}
+	if k, ok := commonConst[p]; ok {
+		return k
+	}
+	var res *ssa.Const
+	defer func() { commonConst[p] = res }()
+	if g.Object() == nil || g.Object().Exported() {
+		return nil
+	}
+	idx := -1
+	for i, q := range g.Params {
+		if q == p {
+			idx = i
+		}
+	}
+	perm := curRenames.paramPerm[g]
+	if idx < 0 || idx >= len(perm) || perm[idx] < n {
+		return nil
+	}
+	var found *ssa.Const
+	sites := 0
+	for f := range curProgram.AllFuncs {
+		if !inModule(f) {
+			continue
+		}
+		for _, b := range f.Blocks {
+			for _, ins := range b.Instrs {
+				for _, op := range ins.Operands(nil) {
+					if *op != ssa.Value(g) {
+						continue
+					}
+					c, isCall := ins.(ssa.CallInstruction)
+					if !isCall || c.Common().Value != ssa.Value(g) {
+						return nil // used as a value: callers unknown
+					}
+				}
+				c, isCall := ins.(ssa.CallInstruction)
+				if !isCall || staticCallee(c.Common()) != g || idx >= len(c.Common().Args) {
+					continue
+				}
+				k, isConst := c.Common().Args[idx].(*ssa.Const)
+				if !isConst || k.Value == nil {
+					return nil
+				}
+				if found != nil && (found.Value.ExactString() != k.Value.ExactString() || !types.Identical(found.Type(), k.Type())) {
+					return nil
+				}
+				found = k
+				sites++
+			}
+		}
+	}
+	if sites == 0 {
+		return nil
+	}
+	res = found
+	return res
+}
+
+var commonConst = map[*ssa.Parameter]*ssa.Const{}
 
 var (
 	soleSite   = map[*ssa.Function]ssa.CallInstruction{}
